@@ -5,6 +5,7 @@ import (
 	"fmt"
 	"os"
 
+	"verifharness/vcodec"
 	"verifharness/vsession"
 	"verifharness/vstore"
 )
@@ -17,6 +18,8 @@ func main() {
 	switch os.Args[1] {
 	case "store":
 		os.Exit(vstore.Main(os.Args[2:]))
+	case "schedule":
+		os.Exit(vcodec.ScheduleMain(os.Args[2:]))
 	case "session":
 		os.Exit(vsession.Main(os.Args[2:]))
 	default:
